@@ -99,6 +99,9 @@ class Models:
         v = st.value
         if isinstance(v, ast.Call) and dotted_name(v.func) in ("Field", "pydantic.Field"):
             kwargs = {k.arg: k.value for k in v.keywords if k.arg}
+            for k in v.keywords:  # Field(**{"default": ..., "ge": 0})
+                if k.arg is None and isinstance(k.value, ast.Dict) and all(isinstance(kk, ast.Constant) and isinstance(kk.value, str) for kk in k.value.keys):
+                    kwargs.update({kk.value: vv for kk, vv in zip(k.value.keys, k.value.values)})
             has_default = False
             if v.args:
                 a0 = v.args[0]
